@@ -171,7 +171,11 @@ def one_dataset(obs, rng, conv, spec):
             obs.cls('geom:' + gcls)
             obs.cls('buffer=%d' % b)
             with quiet_warnings():
-                mask = obs.call('make_clip_mask', ems.make_clip_mask, g, buffer=b)
+                if b == 0 and rng.random() < 0.5:
+                    obs.cls('buffer-argument-omitted')
+                    mask = obs.call('make_clip_mask (no buffer argument)', ems.make_clip_mask, g)      # documented default: no buffer
+                else:
+                    mask = obs.call('make_clip_mask', ems.make_clip_mask, g, buffer=b)
             if isinstance(mask, Failed):
                 continue
             obs.sig(conv, face.shape, model.describe()['holes'], gcls, hash(g.wkt), b)
